@@ -330,8 +330,13 @@ func cueType(t *amType, indent int, top bool) string {
 	if t.Default != nil {
 		switch t.K {
 		case "ref":
-			// enum reference with a default
-			base = fmt.Sprintf("%s & (*%s | _)", base, cueLit(t.Default))
+			if _, isStruct := t.Default.(map[string]any); isStruct {
+				// struct reference with partial overrides
+				base = fmt.Sprintf("%s | *%s", base, cueLit(t.Default))
+			} else {
+				// enum reference with a default
+				base = fmt.Sprintf("%s & (*%s | _)", base, cueLit(t.Default))
+			}
 		case "enum":
 			// mark the default member
 			parts := strings.Split(base, " | ")
